@@ -51,7 +51,22 @@ GROUPS["ranges"] = {
 }
 
 # Verus obligation -> kani group used to look for a counterexample / to decide when Verus is undecided
-TWINS = {}
+TWINS = {
+    "reader_stacks::MarkdownEventsReader::to_line_range": ("positions", "line_range_"),
+    "reader_stacks::MarkdownEventsReader::to_inline_range": ("positions", "inline_range_"),
+    "ranges::ranges": ("ranges", "ranges_"),
+}
+for _f in ("prev_id", "id", "next_id", "child_id", "line_id", "insertable", "is_parent_of", "is_prev_of", "set_next_id", "set_child_id",
+           "new_leaf", "new_raw_leaf", "new_table", "new_ref", "new_bullet_list", "new_ordered_list", "new_quote", "new_rule",
+           "new_section", "new_root", "is_root", "is_document", "is_section", "is_ref", "is_empty"):
+    TWINS["arena_forest::GraphNode::" + _f] = ("graph_nodes", "node_")
+
+
+def full_name(h):
+    for g, G in GROUPS.items():
+        if h in G["quick"] or h in G.get("thorough", []):
+            return G["module"] + "::" + h
+    return h
 
 
 def _env():
@@ -77,9 +92,9 @@ def hooks_present(repo, groups):
 
 def run_harnesses(repo, names, timeout=1500, extra=()):
     """Run the named harnesses in one cargo-kani invocation; return (results, cmd, raw)."""
-    cmd = ["cargo", "kani", "-p", "liwe", "-j", "8", "--output-format", "terse"]
+    cmd = ["cargo", "kani", "-p", "liwe", "-j", "8", "--output-format", "terse", "--exact"]
     for n in names:
-        cmd += ["--harness", n]
+        cmd += ["--harness", full_name(n)]
     cmd += list(extra)
     t0 = time.time()
     try:
@@ -177,12 +192,20 @@ def run_groups(groups, tier, prop):
     os.makedirs(C.BUILD, exist_ok=True)
     with open(os.path.join(C.BUILD, "kani_%s.log" % prop), "w") as f:
         f.write(raw)
+    first_cex = None
     for r in res:
         G = meta[r["name"]]
         r["kind"] = G["kind"]
         r["repo"] = G["repo"]
         if r["status"] == "failed":
-            r["cex"] = playback(repo, r["name"])
+            if first_cex is None:
+                r["cex"] = playback(repo, r["name"])
+                first_cex = (r["name"], r["cex"])
+            else:
+                r["cex"] = {"found": first_cex[1].get("found", False),
+                            "text": "harness %s fails as well (%s); the counterexample of %s was replayed, see its replay file\n%s"
+                                    % (r["name"], "; ".join(f["desc"] for f in r["failures"][:2]), first_cex[0],
+                                       first_cex[1].get("text", "")[:1500])}
     return {"harnesses": res, "cmds": [cmd], "wall_s": wall,
             "trusted": ["Kani 0.68 / CBMC 6.11; harness bounds as stated per harness (see kani/*.rs); "
                         "payload strings of nodes are concrete in bounded-shape harnesses"]}
@@ -215,7 +238,7 @@ def playback(repo, harness):
     of the harness files, with the generated #[test] appended, run by `cargo kani playback`.  Scratch copies and
     their build output are removed afterwards."""
     out = {"found": False, "text": ""}
-    cmd = ["timeout", "900", "cargo", "kani", "-p", "liwe", "--harness", harness, "-Z", "concrete-playback",
+    cmd = ["timeout", "900", "cargo", "kani", "-p", "liwe", "--exact", "--harness", full_name(harness), "-Z", "concrete-playback",
            "--concrete-playback=print", "--output-format", "terse"]
     p = subprocess.run(cmd, cwd=repo, env=_env(), capture_output=True, text=True)
     txt = p.stdout + p.stderr
@@ -261,12 +284,21 @@ def playback(repo, harness):
     return out
 
 
-def counterexample_for(obligation, tier):
-    g = TWINS.get(obligation)
-    if not g:
+def counterexample_for(obligation, tier, already=None):
+    """A Kani harness that exercises the same real function may supply a concrete failing input for a Verus
+    failure.  `already`: the Kani results of this check run, reused when the group was part of it."""
+    tw = TWINS.get(obligation)
+    if not tw:
         return None
-    res = run_groups([g], tier, "twin")
-    for h in res["harnesses"]:
-        if h["status"] == "failed" and h.get("cex"):
+    g, prefix = tw
+    res = None
+    if already is not None and any(h["name"].startswith(prefix) for h in already.get("harnesses", [])):
+        res = already
+    else:
+        res = run_groups([g], tier, "twin")
+    hs = [h for h in res["harnesses"] if h["name"].startswith(prefix)]
+    for h in hs:
+        if h["status"] == "failed" and h.get("cex") and h["cex"].get("found"):
             return h["cex"]
-    return {"found": False, "text": "twin harnesses %s: %s" % (g, [(h["name"], h["status"]) for h in res["harnesses"]])}
+    return {"found": False, "text": "Kani harnesses on the same function (%s*) found no failing input: %s"
+            % (prefix, [(h["name"], h["status"]) for h in hs])}
